@@ -114,11 +114,17 @@ func (w *jWorld) genDep(ch choose.Chooser, origNet uint32) srcDep {
 	default:
 		d.Amount = big.NewInt(int64(s) * 1000003)
 	}
-	switch ch.Int(0, 3, "metaKind") {
+	switch ch.Int(0, 4, "metaKind") {
 	case 0:
 		d.Meta = nil
 	case 1:
 		d.Meta = []byte{byte(s)}
+	case 4:
+		// metadata as long as a hash, a hash more or less one byte, or two words (one ABI-encoded value is 32 bytes)
+		d.Meta = make([]byte, []int{31, 32, 32, 33, 64}[s%5])
+		for i := range d.Meta {
+			d.Meta[i] = byte(s*3 + i)
+		}
 	default:
 		d.Meta = make([]byte, 40+s%50)
 		for i := range d.Meta {
@@ -307,6 +313,11 @@ func (w *jWorld) makeClaim(src claimSrc, num, pos uint64) bridgesync.Claim {
 func (w *jWorld) addL2Block(ch choose.Chooser, nBridges int, claims []claimSrc) error {
 	num := w.l2next
 	w.l2next++
+	if ch.Int(0, 11, "l2NumberJump") == 11 {
+		// block numbers are not contiguous in the stores (blocks without events are not recorded): sometimes the next
+		// event block is more than 2^16 blocks away, so a certificate's block range does not fit 16 bits
+		w.l2next += 65536 + uint64(ch.Int(0, 5000, "l2JumpExtra"))
+	}
 	b := l2Block{Num: num}
 	var evs []interface{}
 	pos := uint64(0)
